@@ -139,6 +139,9 @@ func (e *engine) generate() {
 				m["msg"] = "C:" + g.ID + ";"
 			default:
 				m["msg"] = "N:" + g.ID + ";"
+				if e.cs.JoinPct > 0 && rng.Intn(12) == 0 {
+					m["msg"] = []any{7, map[string]any{"k": g.ID}, nil}[rng.Intn(3)]
+				}
 			}
 			kidOps := map[string]int{"pass": 8, "discard": 2}
 			split := rng.Intn(100) < e.cs.SplitPct
@@ -162,6 +165,9 @@ func (e *engine) generate() {
 					m["msg"] = "C:" + g.ID + ";"
 				case "X":
 					delete(m, "jm")
+				case "Z":
+					// the join field exists but is not a string
+					m["msg"] = []any{5, map[string]any{"k": g.ID}, nil}[rng.Intn(3)]
 				case "D":
 					g.Op = "discard"
 				case "B":
@@ -332,6 +338,25 @@ func RunCase(cs Case, trace func(any)) Result {
 		rec.add(Rec{K: "fin", Src: uint64(ev.SourceID), Off: ev.Offset, Notify: notify, Back: back, Kind: info.Kind})
 	})
 	defer pipeline.VerifSetFinalizeObserver(nil)
+	// stream.commitSeq must never go backwards (a regression leaves the stream
+	// attached and detaching forever once it is the tail of the stream)
+	var cmu sync.Mutex
+	lastCommitSeq := map[string]uint64{}
+	commitRegress := ""
+	pipeline.VerifSetStreamCommitObserver(func(pp *pipeline.Pipeline, src uint64, stream string, evSeq uint64, load func() uint64) {
+		if pp != p {
+			return
+		}
+		k := fmt.Sprintf("%d/%s", src, strings.Clone(stream))
+		cmu.Lock()
+		v := load()
+		if prev, ok := lastCommitSeq[k]; ok && v < prev && commitRegress == "" {
+			commitRegress = fmt.Sprintf("stream %s: commit sequence went backwards from %d to %d (observed after the commit of event seq %d)", k, prev, v, evSeq)
+		}
+		lastCommitSeq[k] = v
+		cmu.Unlock()
+	})
+	defer pipeline.VerifSetStreamCommitObserver(nil)
 
 	p.Start()
 
@@ -400,6 +425,9 @@ func RunCase(cs Case, trace func(any)) Result {
 	wedged := false
 	stoppedEarly := false
 	heartbeatStalled := false
+	starved := map[string]int64{}
+	starvedViol := ""
+	lastStarveSample, lastStarveWall := int64(-1), time.Now()
 	for {
 		select {
 		case <-readersDone:
@@ -413,6 +441,34 @@ func RunCase(cs Case, trace func(any)) Result {
 		tick := atomic.LoadInt64(&hc.stick)
 		if backs != lastBacks {
 			lastBacks, lastProgressTick, lastWallProgress = backs, tick, time.Now()
+		}
+		// a stream that stays charged (pending events, no processor) without being
+		// served while some processor is idle: "a processor asleep while work is queued"
+		if tick != lastStarveSample || time.Since(lastStarveWall) > 20*time.Millisecond {
+			lastStarveSample, lastStarveWall = tick, time.Now()
+			idle := p.VerifActiveProcs() < p.VerifProcCount()
+			seenNow := map[string]bool{}
+			if idle {
+				for _, st := range p.VerifStreamerState() {
+					if st.InCharged && st.HasFirst && !st.Attached {
+						k := fmt.Sprintf("%d/%s/%d", st.SourceID, st.Name, st.AwaySeq)
+						seenNow[k] = true
+						if _, ok := starved[k]; !ok {
+							starved[k] = tick
+						} else if tick-starved[k] >= 10 && starvedViol == "" {
+							starvedViol = fmt.Sprintf("stream %d/%s stayed charged and unserved (away seq %d) for %d streamer heartbeat ticks while %d of %d processors were idle", st.SourceID, st.Name, st.AwaySeq, tick-starved[k], p.VerifProcCount()-p.VerifActiveProcs(), p.VerifProcCount())
+						}
+					}
+				}
+			}
+			for k := range starved {
+				if !seenNow[k] {
+					delete(starved, k)
+				}
+			}
+		}
+		if starvedViol != "" && cs.Name == "directed" {
+			break // verdict reached: no need to sit out the rest of the schedule
 		}
 		if readersFinished && out == 0 && p.VerifPoolInUse() == 0 {
 			zeroSamples++
@@ -483,6 +539,15 @@ func RunCase(cs Case, trace func(any)) Result {
 
 	if heartbeatStalled {
 		res.Stats["heartbeat_stalled"] = 1
+	}
+	cmu.Lock()
+	if commitRegress != "" {
+		res.Viol = append(res.Viol, Viol{Prop: "C04", Sig: "stream-commit-seq-regressed", What: commitRegress})
+		res.Viol = append(res.Viol, Viol{Prop: "C02", Sig: "stream-commit-seq-regressed", What: commitRegress})
+	}
+	cmu.Unlock()
+	if starvedViol != "" {
+		res.Viol = append(res.Viol, Viol{Prop: "C04", Sig: "processor-asleep-while-stream-charged", What: starvedViol})
 	}
 	if stoppedEarly {
 		res.Stats["stopped_early"] = 1
